@@ -467,6 +467,20 @@ pub fn oracle(case: &Value, seen: &Seen, w: &WorldObs) -> Result<&'static str, (
             Ok("utf8")
         }
         "timeout" => {
+            // a child whose script never sleeps can only run past a deadline by being kept waiting: for
+            // output nobody takes (then the limit error comes first) or for the end of a standard input
+            // whose text was delivered long ago. With time standing still unless everybody waits (pure
+            // discrete-event runs) the second is the runner's doing.
+            let sleeps = case["script"].as_array().is_some_and(|a| a.iter().any(|o| o.get("sleep").is_some()));
+            if case["pure_des"].as_bool().unwrap_or(false) && !sleeps && !read_err && case["stdin_pol"] == 2 && !over[0] && !over[1] {
+                let eof_seen = p.written[0].len() as u64 >= case["stdin_len"].as_u64().unwrap_or(0);
+                if eof_seen {
+                    return v(
+                        "stdin-never-closed",
+                        format!("timeout for a child that never sleeps: it had consumed all {} bytes of its standard input and was still waiting for the end of it", p.written[0].len()),
+                    );
+                }
+            }
             if p.last_try_wait_running != Some(true) {
                 return v("spurious-timeout", "timeout although the last try_wait saw the child exited".into());
             }
